@@ -23,6 +23,12 @@ RELS = ('renumber+insertion', 'remap', 'respell-chython', 'respell-rdkit')
 
 # ---- comparison -----------------------------------------------------------------------------------------------------------
 
+def _h(text):
+    """short stable tag: keeps replay file names of keys that differ only in punctuation apart"""
+    import hashlib
+    return hashlib.md5(text.encode()).hexdigest()[:6]
+
+
 def _canon(m):
     from bounded import domains as D
     D.norm(m)
@@ -300,7 +306,7 @@ def bounded(run):
                         notes['gap_hit_samples'].append({'input': ident, 'gap': 1 if gap[0] else 2, 'relation': rel, 'what': what})
                 continue
             rel, what, witness = bad[0]
-            run.violation(f'c01:{ident}', f'C01 {rel}: {what} [{domain} input {ident}]' +
+            run.violation(f'c01:{_h(ident)}:{ident}', f'C01 {rel}: {what} [{domain} input {ident}]' +
                           (f' (also: {", ".join(b[0] for b in bad[1:])})' if len(bad) > 1 else ''),
                           witness={'domain': domain, 'input': ident, 'record': by_id.get(ident), 'relation': rel, **witness},
                           native={'reference': s0, 'differences': {b[0]: b[1] for b in bad}})
@@ -318,7 +324,7 @@ def bounded(run):
         for other in members[1:]:
             pairs += 1
             if stereo_isomorphic(ref, mol_of(*other)) is False:
-                run.violation(f'collision:{members[0][1]}|{other[1]}',
+                run.violation(f'collision:{_h(members[0][1] + other[1])}:{members[0][1]}|{other[1]}',
                               f'C01 over-merge: non-isomorphic molecules share the canonical string {s0!r}',
                               witness={'relation': 'collision', 'a': members[0], 'b': other, 'record_a': by_id.get(members[0][1]),
                                        'record_b': by_id.get(other[1])}, native={'string': s0})
@@ -343,7 +349,7 @@ def bounded(run):
                 if any(gaps(ma)):
                     notes['gap_hits'] += 1
                     continue
-                run.violation(f'iso-pair:{ia}|{ib}', f'C01: isomorphic molecules with canonical strings {sa!r} and {sb!r}',
+                run.violation(f'iso-pair:{_h(ia + ib)}:{ia}|{ib}', f'C01: isomorphic molecules with canonical strings {sa!r} and {sb!r}',
                               witness={'relation': 'iso-pair', 'record_a': by_id[ia], 'record_b': by_id[ib]},
                               native={'a': sa, 'b': sb})
     notes['distinct_canonical_strings'] = len(by_string)
